@@ -97,10 +97,16 @@ class _Spec:
     """a randomly drawn specification of a local Hamiltonian on sites 0..n-1 (positions of arbitrary node labels):
     the dictionaries handed to quimb and, independently, the dense Hamiltonian and the per-pair combined terms"""
 
-    def __init__(self, rng, nodes, edges, d, cplx, h2mode, h1mode, reverse_prob, herm=True, default_edges=None):
+    def __init__(self, rng, nodes, edges, d, cplx, h2mode, h1mode, reverse_prob, herm=True, default_edges=None, sym_pair=None):
+        """sym_pair = (a, b): the total term of that pair (two-site part and the one-site shares) is made symmetric under
+        exchange of the two sites (used for the boundary bond of periodic chains)"""
         self.nodes, self.d, self.n = list(nodes), d, len(nodes)
         pos = {s: i for i, s in enumerate(self.nodes)}
-        gen = (lambda k: _rand_herm(rng, k, cplx)) if herm else (lambda k: _rand_gen(rng, k, cplx))
+        gen0 = (lambda k: _rand_herm(rng, k, cplx)) if herm else (lambda k: _rand_gen(rng, k, cplx))
+        if sym_pair is not None and h2mode == "array":
+            gen = lambda k: (lambda h: (h + _flip(h, d)) / 2 if k == d * d else h)(gen0(k))  # noqa: E731
+        else:
+            gen = gen0
         D = d ** self.n
         self.H = np.zeros((D, D), dtype=complex)
         self.pair = {}  # frozenset -> (a, b, matrix with first factor on a) combined two-site part
@@ -125,6 +131,8 @@ class _Spec:
         else:
             if h2mode == "default+override":
                 hdef = gen(d * d)
+                if sym_pair is not None:
+                    hdef = (hdef + _flip(hdef, d)) / 2
                 self.H2[None] = hdef
                 over = [e for e in explicit if rng.random() < 0.4]
                 for a, b in default_edges:
@@ -135,12 +143,16 @@ class _Spec:
                 chosen = explicit
             for a, b in chosen:
                 h = gen(d * d)
+                if sym_pair is not None and {a, b} == set(sym_pair):
+                    h = (h + _flip(h, d)) / 2
                 if rng.random() < reverse_prob:
                     # key given as (b, a): first factor acts on b
                     self.H2[(b, a)] = h
                     add_pair(b, a, h)
                     if rng.random() < 0.3:
                         h2 = gen(d * d)
+                        if sym_pair is not None and {a, b} == set(sym_pair):
+                            h2 = (h2 + _flip(h2, d)) / 2
                         self.H2[(a, b)] = h2   # both orientations supplied: they add up
                         add_pair(a, b, h2)
                 else:
@@ -172,6 +184,14 @@ class _Spec:
                 self.H1 = None
         else:
             self.H1 = None
+        if sym_pair is not None and isinstance(self.H1, dict):
+            a, b = sym_pair   # equal fields on the two sites (they are covered by the same number of pairs in a ring)
+            if a in self.h1:
+                self.H1[b] = self.h1[a]
+                self.h1[b] = self.h1[a]
+            elif b in self.h1:
+                self.H1[a] = self.h1[b]
+                self.h1[a] = self.h1[b]
         for s, h in self.h1.items():
             self.H += _embed(h, d, self.n, (pos[s],))
         self.pos = pos
@@ -256,7 +276,7 @@ def local_ham(cx):
 
     _serial_cotengra()
     rng = cx.rng
-    reps = 6 if cx.quick else 40
+    reps = 12 if cx.quick else 120
     h2modes = ("array", "default+override", "explicit")
     h1modes = ("none", "array", "default+some", "some")
     xs = (0.3, -0.2j, 0.1 - 0.4j)
@@ -403,7 +423,7 @@ def trotter(cx):
         cx.check("trotter_schedule: layer indices valid, per-layer fractions sum to 1, palindromic for orders 2 and 4",
                  dict(nlayers=n, order=order), t_sched, nontrivial=n > 0)
 
-    reps = 8 if cx.quick else 60
+    reps = 16 if cx.quick else 200
     for order, rep in itertools.product((1, 2, 4), range(reps)):
         if not cx.mine():
             continue
@@ -587,13 +607,15 @@ def _evolve_ref(psi, t, T, dt, order, bt, L, d, cyclic, imag, ham_norm):
 
 
 @driver("C11", "tebd-product-formula", chunks=10, timeout=400,
-        bound="TEBD on chains L 2..7 open and 3..6 periodic, d=2 (d=3 for L<=4), random complex Hermitian site-dependent "
+        bound="TEBD on chains L 2..7 open and 3..6 periodic, d=2 (d=3 for open L<=4), random complex Hermitian site-dependent "
               "non-exchange-symmetric two-site terms + one-site terms (also a single 2-site array), random normalised complex "
               "MPS or product initial states, orders 1, 2, 4, dt in [0.03, 0.2] or a tol giving such a dt, t0 in {0, 0.37}, 2-3 "
               "successive targets (not multiples of dt, and exact multiples) through update_to and at_times, real and "
               "imaginary time, split cutoff 0 or default (no bond cap): t == T (4 ulp), state == written-out product formula "
-              "(1e-7), norm 1, err bookkeeping, convergence ratio under step halving (odd periodic chains: first order only, "
-              "exact formula only for single-step evolutions)")
+              "(1e-8 with cutoff 0, 1e-4 with the default cutoff 1e-10 on the discarded weight), norm 1, err bookkeeping, convergence ratio under step halving (odd periodic chains: first order only, "
+              "exact formula only for single-step evolutions); periodic chains have no canonical form, so without truncation every "
+              "gate doubles the bond: periodic histories are limited to two calls / two steps with orders 1 and 2, order 4 is "
+              "covered there at the level of single sweeps")
 def tebd(cx):
     import scipy.linalg as sla
 
@@ -601,7 +623,7 @@ def tebd(cx):
 
     _serial_cotengra()
     rng = cx.rng
-    reps = 2 if cx.quick else 24
+    reps = 6 if cx.quick else 80
     grid = list(itertools.product((2, 3, 4, 5, 6, 7), (False, True), (1, 2, 4), (False, True), range(reps)))
     for L, cyclic, order, imag, rep in grid:
         if cyclic and (L < 3 or L > 6):
@@ -612,27 +634,29 @@ def tebd(cx):
             cx.inconclusive.append("tebd-product-formula: time budget exhausted")
             return
         seed = int(rng.integers(1 << 30))
-        d = 3 if (L <= 4 and rng.integers(4) == 0) else 2
+        d = 3 if (L <= 4 and rng.integers(4) == 0 and not cyclic) else 2   # (periodic: bonds grow by d per gate)
         hmode = ("explicit", "default+override", "array")[int(rng.integers(3))]
         h1mode = ("none", "array", "default+some", "some")[int(rng.integers(4))]
-        use_tol = bool(rng.integers(4) == 0) and not (cyclic and L % 2 == 1)
+        use_tol = bool(rng.integers(4) == 0) and not cyclic
         dt = float(rng.uniform(0.03, 0.2))
         tol = float(rng.uniform(1e-3, 1e-2))
         t0 = (0.0, 0.37)[int(rng.integers(2))]
-        ntar = int(rng.integers(2, 4))
+        ntar = int(rng.integers(2, 4)) if not cyclic else 2
         api = ("update_to", "at_times")[int(rng.integers(2))]
         cutoff0 = bool(rng.integers(2))
         p0kind = ("rand", "product", "real")[int(rng.integers(3))]
-        mult = bool(rng.integers(4) == 0)
+        mult = bool(rng.integers(4) == 0) and not cyclic
         odd_cyclic = cyclic and L % 2 == 1
+        symb = bool(cyclic and rng.integers(2))   # periodic: boundary term symmetric under exchange of sites L-1 and 0
         p = dict(L=L, cyclic=cyclic, order=order, imag=imag, d=d, h2=hmode, h1=h1mode, use_tol=use_tol, dt=round(dt, 6),
                  tol=round(tol, 6), t0=t0, ntargets=ntar, api=api, cutoff0=cutoff0, p0=p0kind, multiples=mult, seed=seed, rep=rep,
-                 odd_periodic=odd_cyclic)
+                 odd_periodic=odd_cyclic, boundary_symmetric=(symb if cyclic else None))
 
-        def setup(L=L, cyclic=cyclic, d=d, hmode=hmode, h1mode=h1mode, seed=seed, p0kind=p0kind, imag=imag):
+        def setup(L=L, cyclic=cyclic, d=d, hmode=hmode, h1mode=h1mode, seed=seed, p0kind=p0kind, imag=imag, symb=symb):
             r = np.random.default_rng(seed)
             nn = [(i, (i + 1) % L) for i in range(L - 1 + int(cyclic))]
-            spec = _Spec(r, list(range(L)), nn, d, True, hmode, h1mode, 0.35, herm=True, default_edges=nn)
+            spec = _Spec(r, list(range(L)), nn, d, True, hmode, h1mode, 0.35, herm=True, default_edges=nn,
+                         sym_pair=(L - 1, 0) if symb else None)
             if p0kind == "product":
                 p0 = qtn.MPS_product_state([r.normal(size=d) + 1j * r.normal(size=d) for _ in range(L)], cyclic=cyclic)
                 p0.normalize()
@@ -643,7 +667,7 @@ def tebd(cx):
             return r, spec, p0, psi0
 
         def thunk(L=L, cyclic=cyclic, order=order, imag=imag, d=d, hmode=hmode, use_tol=use_tol, dt=dt, tol=tol, t0=t0, ntar=ntar,
-                  api=api, cutoff0=cutoff0, mult=mult, odd_cyclic=odd_cyclic):
+                  api=api, cutoff0=cutoff0, mult=mult, odd_cyclic=odd_cyclic, norm_only=False):
             r, spec, p0, psi0 = setup()
             bt = spec.bond_terms()
             if hmode == "array" and spec.H1 is None:
@@ -662,9 +686,13 @@ def tebd(cx):
                 return f"initial time {tb.t}"
             # targets
             span = dt * float(r.uniform(1.2, 4.8)) if not use_tol else 0.5
+            if cyclic:
+                # a periodic MPS has no canonical form: without truncation every gate doubles its bond, so only short
+                # histories are affordable (two calls, at most two steps in total)
+                span = dt * float(r.uniform(1.1, 1.9))
             if odd_cyclic:
                 # exact product formula only without merged sweeps: a single (final) step per call
-                span = dt * 0.9 * ntar if not use_tol else 0.5
+                span = dt * 0.9 * ntar
             cuts = np.sort(r.uniform(0.05, 1.0, size=ntar))
             cuts[-1] = 1.0
             targets = [t0 + span * float(c) for c in cuts]
@@ -698,26 +726,77 @@ def tebd(cx):
                 if abs(tt - T) > 4 * np.spacing(max(abs(T), 1.0)):
                     return f"target {T!r}: tebd.t = {tt!r}"
                 nrm = float(np.linalg.norm(got))
-                if abs(nrm - 1) > 1e-8:
-                    return f"target {T}: norm of the state {nrm} ({'imaginary' if imag else 'real'} time)"
-                e = _close(got, ref, 2e-7, f"state at T={T:.4f} vs written-out product formula (order {order})")
+                if norm_only:
+                    if abs(nrm - 1) > 1e-8:
+                        return f"target {T}: norm of the returned state {nrm} (imaginary time)"
+                    continue
+                if not imag and abs(nrm - 1) > (1e-9 if cutoff0 else 1e-6):
+                    return f"target {T}: norm of the state {nrm} (real time)"
+                if imag:
+                    got = got / nrm   # the normalisation itself is the business of the next contract
+                e = _close(got, ref, 1e-8 if cutoff0 else 1e-4, f"state at T={T:.4f} vs written-out product formula (order {order})")
                 if e:
                     return e
                 if abs(err_got - err_want) > 1e-9 * max(err_want, 1e-300) + 1e-15:
                     return f"target {T}: tebd.err = {err_got}, sum of ham_norm * dt^(order+1) = {err_want}"
             return None
 
-        cx.check("TEBD update_to / at_times: t == T, state == written-out product formula, unit norm, err bookkeeping", p, thunk)
+        if not (cyclic and order == 4):
+            cx.check("TEBD update_to / at_times: t == T, state == written-out product formula (imaginary time: up to "
+                     "normalisation), unit norm in real time, err bookkeeping", p, thunk)
+            if imag:
+                cx.check("TEBD(imag=True) returns a normalised state", dict(p, last_sweep_left=(order == 1)),
+                         lambda thunk=thunk: thunk(norm_only=True))
 
-        if rep % 2 == 0 and not imag:
+        nsw = int(rng.integers(1, 4))
+        seq = [(int(rng.integers(2)), float(rng.uniform(0.2, 1.0))) for _ in range(nsw)]
+        queue = bool(rng.integers(2))
+
+        def t_sweeps(L=L, cyclic=cyclic, imag=imag, d=d, dt=dt, seq=seq, queue=queue, cutoff0=cutoff0, norm_only=False):
+            r, spec, p0, psi0 = setup()
+            bt = spec.bond_terms()
+            H = qtn.LocalHam1D(L, H2=spec.H2, H1=spec.H1, cyclic=cyclic)
+            tb = qtn.TEBD(p0, H, dt=dt, split_opts={"cutoff": 0.0} if cutoff0 else None, progbar=False, imag=imag)
+            tb._dt = dt
+            psi = psi0.copy()
+            for k, fr in seq:
+                tb.sweep(("right", "left")[k], fr, queue=queue)
+                psi = _sweep_ref(psi, k, fr * dt, bt, L, d, cyclic, imag)
+            if queue:
+                # a queued sweep is only applied when a non-queued one drains it: finish with an explicit zero-time sweep
+                tb.sweep("right", 0.0, queue=False)
+            if imag:
+                psi = psi / np.linalg.norm(psi)
+            got = np.asarray(tb.pt.to_dense()).reshape(-1)
+            if queue and (odd_cyclic and any(seq[i][0] == seq[i + 1][0] == 0 for i in range(len(seq) - 1))):
+                return None  # merged right sweeps on an odd periodic chain are not the product of the two sweeps
+            nrm = float(np.linalg.norm(got))
+            if norm_only:
+                return None if abs(nrm - 1) <= 1e-8 else f"norm of the state after the sweeps: {nrm} (imaginary time)"
+            if imag:
+                got = got / nrm
+            elif abs(nrm - 1) > (1e-9 if cutoff0 else 1e-6):
+                return f"norm {nrm} (real time)"
+            return _close(got, psi, 1e-8 if cutoff0 else 1e-4, f"state after sweeps {seq} (queue={queue})")
+
+        cx.check("TEBD.sweep(direction, dt_frac): right = even bonds (+ boundary bond on odd periodic chains), left = odd bonds "
+                 "(+ boundary bond on even periodic chains), each gate = expm(-i dt_frac dt term)",
+                 dict(p, sweeps=[[k, round(f, 4)] for k, f in seq], queue=queue), t_sweeps)
+        if imag:
+            # with queue=True the draining zero-time right sweep comes last
+            cx.check("TEBD.sweep with imag=True leaves a normalised state",
+                     dict(p, sweeps=[[k, round(f, 4)] for k, f in seq], queue=queue, last_sweep_left=(seq[-1][0] == 1 and not queue)),
+                     lambda t_sweeps=t_sweeps: t_sweeps(norm_only=True))
+
+        if rep % 2 == 0 and not imag and not (cyclic and order == 4):
             def t_conv(L=L, cyclic=cyclic, order=order, d=d, odd_cyclic=odd_cyclic):
                 r, spec, p0, psi0 = setup()
                 H = qtn.LocalHam1D(L, H2=spec.H2, H1=spec.H1, cyclic=cyclic)
                 # scale so that the Trotter error is well above round-off and well inside the asymptotic regime
-                T = 0.8
+                T = 0.8 if not cyclic else 0.12
                 exact = sla.expm(-1j * T * spec.H) @ psi0
                 errs = []
-                for m in (4, 8):
+                for m in ((4, 8) if not cyclic else (1, 2)):
                     tb = qtn.TEBD(p0, H, dt=T / m, split_opts={"cutoff": 0.0}, progbar=False)
                     tb.update_to(T, order=order, progbar=False)
                     errs.append(float(np.linalg.norm(np.asarray(tb.pt.to_dense()).reshape(-1) - exact)))
@@ -731,5 +810,88 @@ def tebd(cx):
                 return None
 
             cx.check("TEBD: error against exact evolution shrinks by ~2^order when dt is halved (odd periodic: first order)",
-                     dict(L=L, cyclic=cyclic, order=order, d=d, h2=hmode, h1=h1mode, seed=seed, p0=p0kind, odd_periodic=odd_cyclic),
-                     t_conv)
+                     dict(L=L, cyclic=cyclic, order=order, d=d, h2=hmode, h1=h1mode, seed=seed, p0=p0kind, odd_periodic=odd_cyclic,
+                          boundary_symmetric=(symb if cyclic else None)), t_conv)
+
+
+# ----------------------------------------------------------------------------------------------
+# driver 4: arbitrary-geometry TEBD / simple update sweeps vs the explicit product of gates
+# ----------------------------------------------------------------------------------------------
+
+@driver("C11", "tebd-gen-sweeps", chunks=4, timeout=300,
+        bound="TEBDGen and SimpleUpdateGen (imaginary time; real time is rejected by the library) on random connected graphs "
+              "with 3..5 qubits (trees and graphs with one or two loops), random real-symmetric or complex-Hermitian terms + "
+              "fields, random initial tensor network states of bond 2, explicit random orderings, second_order_reflect on / off, "
+              "1-2 sweeps, bond cap 64 and cutoff 0 (no truncation): state == product of expm(-tau term) in the given order "
+              "(simple update: up to the positive normalisation it applies)")
+def tebd_gen(cx):
+    import scipy.linalg as sla
+
+    import quimb.tensor as qtn
+
+    _serial_cotengra()
+    rng = cx.rng
+    reps = 30 if cx.quick else 300
+    for algo, reflect, rep in itertools.product(("TEBDGen", "SimpleUpdateGen"), (False, True), range(reps)):
+        if not cx.mine():
+            continue
+        if cx.out_of_time():
+            cx.inconclusive.append("tebd-gen-sweeps: time budget exhausted")
+            return
+        seed = int(rng.integers(1 << 30))
+        cplx = bool(rng.integers(2))
+        nsweeps = int(rng.integers(1, 3))
+        tau = float(rng.uniform(0.02, 0.3))
+        how = ("sweep", "evolve")[int(rng.integers(2))]
+        p = dict(algo=algo, second_order_reflect=reflect, seed=seed, cplx=cplx, nsweeps=nsweeps, tau=round(tau, 5), how=how, rep=rep)
+
+        def thunk(algo=algo, reflect=reflect, seed=seed, cplx=cplx, nsweeps=nsweeps, tau=tau, how=how):
+            r = np.random.default_rng(seed)
+            n = int(r.integers(3, 6))
+            nodes = list(range(n))
+            edges = [(int(r.integers(0, i)), i) for i in range(1, n)]
+            extra = int(r.integers(0, 3))
+            for _ in range(extra):
+                a, b = sorted(int(q) for q in r.choice(n, size=2, replace=False))
+                if (a, b) not in edges:
+                    edges.append((a, b))
+            if len(edges) > n - 1 and nsweeps * (2 if reflect else 1) > 2:
+                # on a graph with loops the local ranks are not bounded by the Hilbert space: every gate multiplies the bond by 4,
+                # so at most two gates per edge stay below the cap of 64 (no truncation)
+                nsweeps = 1
+            spec = _Spec(r, nodes, edges, 2, cplx, "explicit", ("none", "some", "array")[int(r.integers(3))], 0.3, herm=True)
+            ham = qtn.LocalHamGen(H2=spec.H2, H1=spec.H1)
+            bt = spec.bond_terms()
+            psi0 = qtn.TN_from_edges_rand(edges, D=2, phys_dim=2, dtype="complex128" if cplx else "float64",
+                                          seed=int(r.integers(1 << 30)))
+            inds = [psi0.site_ind(s) for s in nodes]
+            x0 = np.asarray(psi0.to_dense(inds)).reshape(-1).astype(complex)
+            ordering = [tuple(pr) for pr in r.permutation(np.array(sorted(bt), dtype=object).reshape(-1, 2)).tolist()]
+            cls = getattr(qtn, algo)
+            kw = dict(tau=tau, D=64, cutoff=0.0, ordering=ordering, second_order_reflect=reflect, compute_energy_final=False,
+                      progbar=False)
+            tb = cls(psi0, ham, **kw)
+            if how == "sweep":
+                for _ in range(nsweeps):
+                    tb.sweep(tau)
+            else:
+                tb.evolve(nsweeps, tau=tau, progbar=False)
+                if tb.n != nsweeps:
+                    return f"n = {tb.n} after {nsweeps} steps"
+            got = np.asarray(tb.state.to_dense(inds)).reshape(-1).astype(complex)
+            ref = x0.copy()
+            seq = ordering + ordering[::-1] if reflect else ordering
+            f = 2.0 if reflect else 1.0
+            for _ in range(nsweeps):
+                for (a, b) in seq:
+                    ref = _apply2(ref, sla.expm(-tau / f * bt[(a, b)]), a, b, n, 2)
+            if sorted(tb.state.outer_inds()) != sorted(inds):
+                return "outer labels changed"
+            if algo == "SimpleUpdateGen" or how == "evolve":
+                # simple update renormalises with its gauges (a positive factor): compare directions
+                got = got / np.linalg.norm(got)
+                ref = ref / np.linalg.norm(ref)
+                # fix a possible overall sign / phase-free positive factor only: no phase freedom is allowed
+            return _close(got, ref, 1e-5, f"{algo} state after {nsweeps} sweep(s) vs ordered product of expm(-tau term)")
+
+        cx.check("TEBDGen / SimpleUpdateGen sweep == ordered product of expm(-tau term) (reflected: palindromic with tau/2)", p, thunk)
